@@ -58,6 +58,9 @@ type c15Op struct {
 	Auth   bool   `json:"auth"`            // message carries the module's authority
 	Enable bool   `json:"enable"`          // setparams: new EnableErc20
 	Meta   int    `json:"meta"`            // regcoin: metadata variant
+	// kill: after the self-destruct somebody sends coins to the dead address, so the bank re-creates a plain account
+	// WITHOUT code there; the contract is still gone and the next conversion must still remove the pair
+	Refund bool `json:"refund,omitempty"`
 }
 
 type c15Case struct {
@@ -432,6 +435,15 @@ func (r *c15Run) exec(op c15Op) (opTerm string, res string) {
 				panic(err)
 			}
 		}
+		if op.Refund {
+			dust := sdk.NewCoins(sdk.NewCoin("dustcoin", sdkmath.NewInt(1)))
+			if err := a.BankKeeper.MintCoins(r.ctx, inflationtypes.ModuleName, dust); err != nil {
+				panic(err)
+			}
+			if err := a.BankKeeper.SendCoinsFromModuleToAccount(r.ctx, inflationtypes.ModuleName, sdk.AccAddress(ad.Bytes()), dust); err != nil {
+				panic(err)
+			}
+		}
 		return "OpEnv", "Ok"
 	case "regcoin":
 		base := op.Token
@@ -609,9 +621,9 @@ func (g *c15Gen) next() c15Op {
 		return c15Op{Kind: "toggle", Token: g.tokenFor(pairs[e.Pick(len(pairs))]), Auth: !e.Chance(0.05)}
 	case roll < 82: // a contract disappears
 		if len(pairs) == 0 {
-			return c15Op{Kind: "kill", Token: g.pickPool().Hex(), Auth: true}
+			return c15Op{Kind: "kill", Token: g.pickPool().Hex(), Auth: true, Refund: e.Chance(0.5)}
 		}
-		return c15Op{Kind: "kill", Token: pairs[e.Pick(len(pairs))].Erc20Address, Auth: true}
+		return c15Op{Kind: "kill", Token: pairs[e.Pick(len(pairs))].Erc20Address, Auth: true, Refund: e.Chance(0.5)}
 	case roll < 92: // conversions (removal when the contract is gone)
 		if len(pairs) == 0 {
 			return c15Op{Kind: "convcoin", Token: g.coins[e.Pick(len(g.coins))], Auth: true}
@@ -653,6 +665,8 @@ func c15Scripts(w *c15World) []c15Case {
 	return []c15Case{
 		{Stream: "boundary:register-delete-reregister", Ops: []c15Op{t("mint", "acoin"), t("regcoin", "acoin"), t("regcoin", "acoin"), t("toggle", "acoin"), t("toggle", "acoin"),
 			t("expimp", ""), t("kill", "@coin:acoin"), t("convcoin", "acoin"), t("expimp", ""), t("toggle", "acoin"), t("regcoin", "acoin"), t("toggle", "acoin"), t("expimp", "")}},
+		{Stream: "boundary:dead-contract-address-funded-again", Ops: []c15Op{t("regerc20", A), {Kind: "kill", Token: A, Auth: true, Refund: true}, t("converc20", A), t("regerc20", A),
+			t("mint", "acoin"), t("regcoin", "acoin"), {Kind: "kill", Token: "@coin:acoin", Auth: true, Refund: true}, t("convcoin", "acoin"), t("regcoin", "acoin")}},
 		{Stream: "boundary:disabled-pair-dead-contract", Ops: []c15Op{t("regerc20", A), t("toggle", A), t("kill", A), t("converc20", A), t("convcoin", eA), t("toggle", lowA),
 			t("converc20", "0X"+strings.ToUpper(lowA)), t("regerc20", A), t("toggle", A), t("toggle", eA)}},
 		{Stream: "boundary:module-disabled", Ops: []c15Op{t("regerc20", A), t("mint", "bcoin"), en(false), t("regcoin", "bcoin"), t("regerc20", Bc), t("toggle", eA), t("kill", A),
